@@ -131,6 +131,8 @@ class PathAnalysis:
         return None
 
     def _set(self, env, name, val, tracked):
+        if any(k.startswith("$" + name + "-") or k.startswith("$" + name + ".") for k in env if k[0] == "$"):
+            env = {k: v for k, v in env.items() if not (k.startswith("$" + name + "-") or k.startswith("$" + name + "."))}
         if name not in tracked:
             return env
         env = dict(env)
